@@ -5,7 +5,7 @@ cd /verif
 SEED=${1:-1}
 for d in seeded/*/; do
   n=$(basename $d); id=${n%%-*}
-  git -C /repo checkout -q -- . ; git -C /repo apply $d/patch.diff 2>/dev/null || { echo "$n: patch does not apply"; continue; }
+  git -C /repo checkout -q -- . ; git -C /repo apply /verif/$d/patch.diff 2>/dev/null || { echo "$n: patch does not apply"; continue; }
   out=$(VERIF_SEED=$SEED ./check $id quick 2>&1 | grep -v KNOWN | tail -1)
   case "$out" in VIOLATION*) echo "$n: detected";; *) echo "$n: MISSED ($out)";; esac
   git -C /repo checkout -q -- .
